@@ -157,7 +157,12 @@ fn nuts_case(ctx: &Ctx, n: usize, seed: Option<u64>) {
 }
 
 fn hmc_case(ctx: &Ctx, n: usize, seed: Option<u64>) {
-    let case = json!({"sampler": "HMC", "n_chains": n, "seed": sd(seed)});
+    hmc_case_v(ctx, n, seed, false);
+    // the batch of chains may also be installed through the public `positions` field of a sampler built for ONE chain
+    hmc_case_v(ctx, n, seed, true);
+}
+fn hmc_case_v(ctx: &Ctx, n: usize, seed: Option<u64>, rebatch: bool) {
+    let case = json!({"sampler": "HMC", "n_chains": n, "seed": sd(seed), "batch_installed_through_positions_field": rebatch});
     let tag = if seed.is_some() { "seeded" } else { "unseeded" };
     ctx.evals(1);
     ctx.state(hash_str(&case.to_string()));
@@ -169,7 +174,13 @@ fn hmc_case(ctx: &Ctx, n: usize, seed: Option<u64>) {
                 r2.borrow_mut().push((label.to_string(), vals.to_vec()));
             }
         })));
-        let mut s = hmc_build::<f64, BF64>(n, seed, true);
+        let mut s = if rebatch {
+            let mut one = hmc_build::<f64, BF64>(1, seed, true);
+            one.positions = crate::burnutil::t2::<BF64>(&vec![vec![0.5, 0.5]; n]);
+            one
+        } else {
+            hmc_build::<f64, BF64>(n, seed, true)
+        };
         let t = s.run(3, 0);
         verif::set_tap(prev);
         let c = cube(&t);
@@ -242,6 +253,49 @@ fn proposal_seeding(ctx: &Ctx) {
     ctx.outcome("proposal-seeding-checked", 1);
 }
 
+/// FREE-RUNNING SUPPLEMENT (declared sampling of schedules, not part of the exhaustive claim): default construction has no
+/// hook the scheduler could interleave at — and a shared seed source introduced by a change would not carry one — so
+/// the enumerated grid above cannot see a data race between constructors. 16 real threads build default (unseeded)
+/// 64-chain MH samplers at the same time; within every sampler all acceptance generators must be pairwise different.
+fn concurrent_construction(ctx: &Ctx) {
+    let iters = ctx.tier.pick(150usize, 1500);
+    let threads = 16;
+    let barrier = std::sync::Arc::new(std::sync::Barrier::new(threads));
+    let hs: Vec<_> = (0..threads)
+        .map(|t| {
+            let b = barrier.clone();
+            std::thread::spawn(move || {
+                b.wait();
+                for it in 0..iters {
+                    let s = mh_build(64, None, true);
+                    let rngs: Vec<SmallRng> = s.chains.iter().map(|c| c.rng.clone()).collect();
+                    if let Some((i, j)) = first_pair(&rngs) {
+                        return Some((t, it, i, j));
+                    }
+                }
+                None
+            })
+        })
+        .collect();
+    let mut hit = None;
+    for h in hs {
+        if let Ok(Some(x)) = h.join() {
+            hit = hit.or(Some(x));
+        }
+    }
+    ctx.evals(1);
+    ctx.transitions((threads * iters) as u64);
+    let case = json!({"sampler": "MH-concurrent-construction", "n_chains": 64, "seed": "unseeded"});
+    match hit {
+        Some((t, it, i, j)) => ctx.violation(Violation::new(
+            "C08:mh-accept-stream-shared(unseeded, concurrent construction)",
+            format!("thread {t}, sampler #{it}: chains {i} and {j} of one default-built 64-chain MH sampler hold identical acceptance generators while 15 other threads construct samplers"),
+            case,
+        )),
+        None => ctx.outcome("concurrent default constructions (free-running supplement): all generators distinct", (threads * iters) as u64),
+    }
+}
+
 pub fn run(ctx: &Ctx) {
     ctx.rule("grid: n_chains in the stated set x seeds {unseeded, 0, 1, 42, 2^32, u64::MAX-40, u64::MAX-1, u64::MAX} x {MH with the library proposal, MH with a user-defined seedable proposal, HMC (recorded momenta/uniforms per row), NUTS}; all chains start from one common state; pairwise comparison of generators (proposal vs proposal, acceptance vs acceptance, and every chain's proposal generator vs every chain's acceptance generator), first proposals, recorded draws and 64-step (MH) / 3-step trajectories. states = distinct (sampler, n_chains, seed) configurations; transitions = chain steps executed; non-trivial = a configuration whose chains are pairwise distinct");
     proposal_seeding(ctx);
@@ -255,6 +309,8 @@ pub fn run(ctx: &Ctx) {
         }
         hmc_case(ctx, *n, *seed);
     });
+    concurrent_construction(ctx);
+    ctx.assume("free-running supplement (NOT exhaustive, schedules are sampled by the OS): 16 threads x 150 (quick) / 1500 (thorough) default constructions of 64-chain MH samplers, generators pairwise distinct within each sampler; it exists because constructors contain no scheduling point");
     ctx.assume("unseeded construction draws OS entropy (the one nondeterminism the harness does not own): the oracle is pairwise inequality, insensitive to the values; accidental collisions have probability ~2^-64");
 }
 
@@ -263,9 +319,10 @@ pub fn check_case(ctx: &Ctx, case: &Value) {
     let seed = case["seed"].as_str().and_then(|s| s.parse::<u64>().ok());
     match case["sampler"].as_str() {
         Some("proposal") => proposal_seeding(ctx),
+        Some("MH-concurrent-construction") => concurrent_construction(ctx),
         Some("MH") => mh_case(ctx, n, seed),
         Some("NUTS") => nuts_case(ctx, n, seed),
-        Some("HMC") => hmc_case(ctx, n, seed),
+        Some("HMC") => hmc_case_v(ctx, n, seed, case["batch_installed_through_positions_field"].as_bool().unwrap_or(false)),
         _ => {}
     }
 }
